@@ -1,6 +1,6 @@
 (* C02 on the choice machine: every word of the template's language, fed one child at a time, is accepted at every step, passes
    the final check and is kept in the order supplied - provided leaf names are pairwise distinct and no branch of a choice is nullable. *)
-From MX Require Import Spec.Particle Spec.Deriv Model.AbsSeq Model.AbsSeqC02 Model.Classes Model.SeqMachine Model.ChoiceSeq Model.ChoiceClass.
+From MX Require Import Spec.Particle Spec.Deriv Model.AbsSeq Model.AbsSeqC02 Model.Classes Model.SeqMachine Model.SeqIds Model.ChoiceSeq Model.ChoiceClass.
 From Coq Require Import Arith Lia.
 
 Fixpoint caddw (w:list positive) (n:nat) (s:cst) : option cst :=
@@ -80,7 +80,7 @@ Proof.
 Qed.
 (* ---- one slot ---- *)
 Definition GoodSlot (x:cslot) : Prop := forall w n, Lang (re_of_slot x) w ->
-  exists x', saddw w n (init_slot x) = Some x' /\ required_slot x' = [] /\ names (ordered_slot x') = w.
+  exists x', saddw w n (init_slot x) = Some x' /\ required_slot x' = [] /\ ordered_slot x' = tagged n w.
 Lemma saddw_plain w : forall n s, saddw w n (SPlain s) = option_map SPlain (addw w n s).
 Proof. induction w as [|a w IH]; intros n s; simpl; auto. destruct (add n a s) as [s'|]; simpl; auto. Qed.
 (* once a branch is chosen, feeding goes to that branch *)
@@ -129,12 +129,12 @@ Proof.
   - injection Ei as ->. intros Ib. apply (NoDup_app_disj _ _ ND a Ia). eapply nth_flat_alpha; eauto.
   - apply (IH (NoDup_app_r _ _ ND) i j bi bj a); auto. lia.
 Qed.
-Lemma choice_good mn brs : mn <= 1 -> Forall Good brs -> NoDup (flat_map alpha_t brs) -> forallb nn_t brs = true -> GoodSlot (CChoice mn brs).
+Lemma choice_good mn brs : mn <= 1 -> Forall GoodI brs -> NoDup (flat_map alpha_t brs) -> forallb nn_t brs = true -> GoodSlot (CChoice mn brs).
 Proof.
   intros Hmn G ND NN w n L. revert w L.
-  assert (Alt: forall w, Lang (alt_of brs) w -> exists x', saddw w n (init_slot (CChoice mn brs)) = Some x' /\ required_slot x' = [] /\ names (ordered_slot x') = w).
+  assert (Alt: forall w, Lang (alt_of brs) w -> exists x', saddw w n (init_slot (CChoice mn brs)) = Some x' /\ required_slot x' = [] /\ ordered_slot x' = tagged n w).
   { intros w La. destruct (lang_alt_of brs w La) as (i & b & Eb & Lb).
-    assert (Gb: Good b) by (rewrite Forall_forall in G; apply G; eapply nth_error_In; eauto).
+    assert (Gb: GoodI b) by (rewrite Forall_forall in G; apply G; eapply nth_error_In; eauto).
     destruct (Gb w n Lb) as (s & Es & Rs & Ns).
     (* w is not empty: the branch is not nullable *)
     destruct w as [|a w'].
@@ -158,7 +158,7 @@ Proof.
   intros w L. simpl in L. destruct (Nat.eqb mn 0) eqn:M.
   - destruct L as (k & _ & K2 & P). simpl in K2. destruct k as [|[|k]]; [| |lia].
     + simpl in P. subst w. exists (init_slot (CChoice mn brs)). simpl. rewrite M. simpl. split; [reflexivity|]. split; [reflexivity|].
-      clear. induction brs as [|b r IH]; simpl; auto. rewrite (nonempty_false_ordered _ (nonempty_init b)). simpl. exact IH.
+      unfold tagged. simpl. clear. induction brs as [|b r IH]; simpl; auto. rewrite (nonempty_false_ordered _ (nonempty_init b)). simpl. exact IH.
     + simpl in P. destruct P as (u & v & -> & Hu & ->). rewrite app_nil_r. apply Alt; auto.
   - apply Alt; auto.
 Qed.
@@ -193,7 +193,7 @@ Lemma SInv_init x : wf_slot x = true -> SInv (init_slot x).
 Proof. intros W. destruct (cinit_inv [x]) as (A & _ & _); [simpl; rewrite W; reflexivity|]. inversion A; auto. Qed.
 Lemma slots_lemma t : Forall GoodSlot t -> wf_ct t = true -> NoDup (alpha_c t) -> forall ws n,
   Forall2 (fun x u => Lang (re_of_slot x) u) t ws ->
-  exists s', caddw (concat ws) n (cinit t) = Some s' /\ crequired s' = [] /\ names (cordered s') = concat ws.
+  exists s', caddw (concat ws) n (cinit t) = Some s' /\ crequired s' = [] /\ cordered s' = tagged n (concat ws).
 Proof.
   induction 1 as [|x r Gx Gr IH]; intros W ND ws n F; inversion F; subst; simpl.
   - exists []; auto.
@@ -205,7 +205,7 @@ Proof.
     exists (x' :: r'). rewrite caddw_app. rewrite caddw_head. rewrite Ex. rewrite caddw_skip.
     + rewrite Er. simpl. repeat split; auto.
       * unfold crequired in *. simpl. rewrite Rx, Rr. reflexivity.
-      * unfold cordered, names in *. simpl. rewrite map_app. congruence.
+      * unfold cordered in *. simpl. rewrite tagged_app. congruence.
     + exact Ix'.
     + intros a Ha. rewrite (alpha_st_shape (init_slot x) x') by (rewrite Sx'; reflexivity). rewrite alpha_st_init. intros Hx. apply (Dis a Hx).
       clear -Ha H3. revert Ha. induction H3 as [|y v r us Hy Hr IH]; simpl; intros Ha; [destruct Ha|].
@@ -219,12 +219,12 @@ Proof. induction brs as [|b r IH]; simpl; intros ND; constructor; [eapply NoDup_
 Lemma good_slot x : c02_ok x = true -> GoodSlot x.
 Proof.
   destruct x as [t|mn brs]; simpl; intros H.
-  - apply andb_true_iff in H as [W N]. intros w n L. destruct (C02_seq_gen t W (nodup_pos_NoDup _ N) w n L) as (s & E & R & Nm).
+  - apply andb_true_iff in H as [W N]. intros w n L. destruct (C02_seq_ids t W (nodup_pos_NoDup _ N) w n L) as (s & E & R & Nm).
     exists (SPlain s). simpl. rewrite saddw_plain, E. auto.
   - apply andb_true_iff in H as [H N]. apply andb_true_iff in H as [H NN]. apply andb_true_iff in H as [M W]. apply Nat.leb_le in M.
     pose proof (nodup_pos_NoDup _ N) as ND. apply choice_good; auto.
     pose proof (nodup_flat_each brs ND) as Each. rewrite forallb_forall in W. apply Forall_forall. intros b Ib.
-    apply C02_seq_gen; [apply W; auto|]. rewrite Forall_forall in Each. apply Each; auto.
+    apply C02_seq_ids; [apply W; auto|]. rewrite Forall_forall in Each. apply Each; auto.
 Qed.
 (* feeding a word through the machine = caddw on the slots; every add succeeds *)
 Fixpoint couts (s:cmst) (ops:list mop) : list mout := match ops with [] => [] | o :: r => snd (cstep s o) :: couts (fst (cstep s o)) r end.
@@ -240,15 +240,21 @@ Proof.
     rewrite B. simpl. rewrite map_app. simpl. rewrite <- app_assoc. auto.
 Qed.
 (* C02 on the choice machine *)
+Theorem C02_cmachine_ids t w : wf_ct t = true -> forallb c02_ok t = true -> NoDup (alpha_c t) -> Lang (re_of_c t) w ->
+  exists s', caddw w 0 (cinit t) = Some s' /\ crequired s' = [] /\ cordered s' = tagged 0 w.
+Proof.
+  intros W G ND L. apply lang_c_split in L as (ws & -> & F).
+  assert (GS: Forall GoodSlot t) by (apply Forall_forall; intros x Ix; apply good_slot; rewrite forallb_forall in G; auto).
+  apply (slots_lemma t GS W ND ws 0 F).
+Qed.
 Theorem C02_cmachine t w : wf_ct t = true -> forallb c02_ok t = true -> NoDup (alpha_c t) -> Lang (re_of_c t) w ->
   Forall (fun o => o = MOk) (couts (cminit t) (map MAdd w)) /\ cverdict_ok (cmrun t (map MAdd w)) = true /\
   names (cordered (ctree (cmrun t (map MAdd w)))) = w /\ map snd (cins (cmrun t (map MAdd w))) = w.
 Proof.
-  intros W G ND L. apply lang_c_split in L as (ws & -> & F).
-  assert (GS: Forall GoodSlot t) by (apply Forall_forall; intros x Ix; apply good_slot; rewrite forallb_forall in G; auto).
-  destruct (slots_lemma t GS W ND ws 0 F) as (s' & E & R & N).
-  destruct (cmrun_adds (concat ws) (cminit t) s' E) as (A & B & D). unfold cmrun. rewrite A. repeat split; auto.
-  unfold cverdict_ok. rewrite A, R. reflexivity.
+  intros W G ND L. destruct (C02_cmachine_ids t w W G ND L) as (s' & E & R & N).
+  destruct (cmrun_adds w (cminit t) s' E) as (A & B & D). unfold cmrun. rewrite A. repeat split; auto.
+  - unfold cverdict_ok. rewrite A, R. reflexivity.
+  - rewrite N. apply names_tagged.
 Qed.
 Lemma is_cseq_nodup p t : is_cseq p = true -> slots_of p = Some t -> wf_ct t = true /\ NoDup (alpha_c t).
 Proof.
